@@ -99,11 +99,11 @@ func isFlagSet(name string) bool {
 
 func runWorker(chk *checks.Check, tier string, seed int64, shard, nshards, secs int, out string, kf []core.KnownFinding, replays string) (code int) {
 	// hard memory ceiling: a runaway allocation kills this worker, not the machine
-	// (virtual address space: a decoder may legitimately reserve the declared
-	// remaining length, up to 256 MiB, and a defective one far more without
-	// ever touching it; resident memory is what the soft limit below and the
-	// step budget keep small)
-	lim := syscall.Rlimit{Cur: 96 << 30, Max: 96 << 30}
+	// (a decoder may legitimately reserve the declared remaining length, up
+	// to 256 MiB per frame; one that asks for tens of gigabytes for a few
+	// bytes of input dies here with a runtime fatal error, which the parent
+	// reports as a violation instead of letting it eat the machine)
+	lim := syscall.Rlimit{Cur: 16 << 30, Max: 16 << 30}
 	syscall.Setrlimit(syscall.RLIMIT_AS, &lim)
 	debug.SetMemoryLimit(6 << 30)
 	if chk.SingleThread {
